@@ -317,6 +317,10 @@ where
                 });
             };
             *slot = value;
+            // A buffered slot may have been deleted before being written.
+            if !self.holes().is_empty() {
+                self.mut_holes().remove(&index);
+            }
             return Ok(());
         }
 
